@@ -132,7 +132,11 @@ def run(ctx):
         ctx.check(not bad, "R16.2", "%s|keys-deleted-per-removal" % fname, "KeysDeleted is bumped exactly once per successful removal", f.where(), str([(w, q.show()) for w, q in bad[:2]]))
     # nobody else bumps them
     for variant, fns, homes in (("KeysAdded", addk, S.insert_fns), ("KeysDeleted", delk, S.remove_fns)):
-        others = sorted({outer_fn(F, g).name for n, g in F.fns.items() for b, t in g.calls() if t.get("rpath") in fns} - set(homes))
+        users_ = {outer_fn(F, g).name for n, g in F.fns.items() for b, t in g.calls() if t.get("rpath") in fns}
+        # a private helper doing the map operation and the bump for several entry points counts as those entry points
+        helper_ok_ = {u for u in users_ - set(homes) if {g.name for g in F.fns.values() for b, t in g.calls() if t.get("rpath") == u} and
+                      {g.name for g in F.fns.values() for b, t in g.calls() if t.get("rpath") == u} <= set(homes)}
+        others = sorted(users_ - set(homes) - helper_ok_)
         ctx.check(not others, "R16.2", "%s|only-at-event" % variant, "%s is bumped only where the event happens" % variant, detail=str(others))
 
     # ---- R16.3 ----------------------------------------------------------------------------------
